@@ -232,12 +232,40 @@ func (c *Ctx) idScopeKey(rule string) {
 			return true
 		})
 		same := key != nil
+		paramSet := map[types.Object]bool{}
+		for i := 0; ; i++ {
+			p := c.paramObj(fd, i)
+			if p == nil {
+				break
+			}
+			paramSet[p] = true
+		}
 		ast.Inspect(fd.Body, func(n ast.Node) bool {
 			if rs, ok := n.(*ast.ReturnStmt); ok && len(rs.Results) > 0 {
 				id, ok := unparen(rs.Results[0]).(*ast.Ident)
-				if !ok || c.objOf(id) != key {
-					same = false
+				if ok && c.objOf(id) == key {
+					return true
 				}
+				// "this id has already produced the current base": the base parameter is handed back unchanged,
+				// under a test of a record indexed by that very parameter (rule id-once checks the record)
+				if ok {
+					if _, isParam := paramSet[c.objOf(id)]; isParam {
+						for _, cl := range c.literalsAt(fd, rs) {
+							be, isB := unparen(cl.e).(*ast.BinaryExpr)
+							if !isB || be.Op != token.EQL || cl.neg {
+								continue
+							}
+							for _, side := range []ast.Expr{be.X, be.Y} {
+								if ix, isIx := unparen(side).(*ast.IndexExpr); isIx {
+									if kid, isId := unparen(ix.Index).(*ast.Ident); isId && c.objOf(kid) == c.objOf(id) {
+										return true
+									}
+								}
+							}
+						}
+					}
+				}
+				same = false
 			}
 			return true
 		})
